@@ -144,6 +144,9 @@ type (
 		// keyed by node name, includes the meta (shard state) information
 		remoteNodeStates   map[string]NodeShardState
 		remoteNodeStatesMu sync.RWMutex
+		// departedNodes holds the nodes memberlist has reported as gone (left or failed) and not
+		// as joined again since; guarded by remoteNodeStatesMu
+		departedNodes map[string]struct{}
 	}
 
 	// shardDelegate implements memberlist.Delegate for shard state management
@@ -193,6 +196,7 @@ func NewShardManager(memberlistConfig *config.MemberlistConfig, shardCountConfig
 		localAckChannels:         make(map[history.ClusterShardID]chan RoutedAck),
 		localReceiverCancelFuncs: make(map[history.ClusterShardID]context.CancelFunc),
 		remoteNodeStates:         make(map[string]NodeShardState),
+		departedNodes:            make(map[string]struct{}),
 	}
 
 	delegate.manager = sm
@@ -1053,8 +1057,14 @@ func (sd *shardDelegate) MergeRemoteState(buf []byte, join bool) {
 	// exchange brings them back.
 	if sd.manager != nil {
 		sd.manager.remoteNodeStatesMu.Lock()
-		if cur, ok := sd.manager.remoteNodeStates[state.NodeName]; !ok || !state.Updated.Before(cur.Updated) {
-			sd.manager.remoteNodeStates[state.NodeName] = state
+		// A state exchange that was under way when the node left (or was declared dead) can be
+		// merged after NotifyLeave has removed the node's entry. Installing it would bring the
+		// departed node back as the owner of its shards - for good, since nothing removes it
+		// again - and tasks and acknowledgements for those shards would be routed to it.
+		if _, gone := sd.manager.departedNodes[state.NodeName]; !gone {
+			if cur, ok := sd.manager.remoteNodeStates[state.NodeName]; !ok || !state.Updated.Before(cur.Updated) {
+				sd.manager.remoteNodeStates[state.NodeName] = state
+			}
 		}
 		sd.manager.remoteNodeStatesMu.Unlock()
 	}
@@ -1254,6 +1264,12 @@ func (sed *shardEventDelegate) NotifyJoin(node *memberlist.Node) {
 	sed.logger.Info("Node joined cluster",
 		tag.NewStringTag("node", node.Name),
 		tag.NewStringTag("addr", node.Addr.String()))
+	// the node is (back) in the cluster: its state is welcome again
+	if sed.manager != nil {
+		sed.manager.remoteNodeStatesMu.Lock()
+		delete(sed.manager.departedNodes, node.Name)
+		sed.manager.remoteNodeStatesMu.Unlock()
+	}
 }
 
 func (sed *shardEventDelegate) NotifyLeave(node *memberlist.Node) {
@@ -1265,6 +1281,7 @@ func (sed *shardEventDelegate) NotifyLeave(node *memberlist.Node) {
 	if sed.manager != nil {
 		sed.manager.remoteNodeStatesMu.Lock()
 		delete(sed.manager.remoteNodeStates, node.Name)
+		sed.manager.departedNodes[node.Name] = struct{}{}
 		sed.manager.remoteNodeStatesMu.Unlock()
 	}
 
